@@ -311,3 +311,162 @@ Example text_premises_met :
 Proof.
   split; [intros c H; unfold txt_read; rewrite H; reflexivity|]. vm_compute. repeat split; reflexivity.
 Qed.
+
+(* ================================================================ Part 4: the models are the code
+   The (de)serialisation functions are TRANSLATED from their Python source on every run (tr/tr_artefacts.py ->
+   Gen/ArtefactsGen.v; meaning of the Python building blocks: Serde/ArtefactsTrSupport.v) and the generated
+   definitions are proved equal to the model functions the theorems above are about (Serde/ArtefactsGenProofs.v).
+   [res_opt] forgets which exception was raised, as the models do; [saved] / [load_via] are the file system and the
+   abstract JSON codec around a dictionary-level function. *)
+Require Import OQ.Serde.ArtefactsTrSupport OQ.Gen.ArtefactsGen OQ.Serde.ArtefactsGenProofs.
+
+(* ---------------------------------------------------------------- utils.py *)
+Theorem generated_convert_dict_to_array_is_model : forall (R : Type) (r_truthy : R -> bool) (j : jt R),
+  res_opt (convert_dict_to_array_gen R r_truthy j) = dict_to_arr r_truthy j.
+Proof. exact convert_dict_to_array_gen_eq. Qed.
+Print Assumptions generated_convert_dict_to_array_is_model.
+
+Theorem generated_convert_array_to_dict_is_model : forall (R : Type) (a : arr R),
+  convert_array_to_dict_gen R a = Val (arr_to_dict a).
+Proof. exact convert_array_to_dict_gen_eq. Qed.
+Print Assumptions generated_convert_array_to_dict_is_model.
+
+Theorem generated_load_list_is_model : forall (R : Type) (loads : string -> option (jt R)) (file : loadsrc) (fs : pyfs),
+  res_opt (load_list_gen R loads file fs) = load_via loads fs file (keyed_from_dict "list").
+Proof. exact load_list_gen_eq. Qed.
+Print Assumptions generated_load_list_is_model.
+
+Theorem generated_save_list_is_model : forall (R : Type) (dumps : jt R -> string) (l : list (jt R)) (p : string) (fs : pyfs),
+  saved fs p (dumps (keyed_to_dict "list" l)) (save_list_gen R dumps l p fs).
+Proof. exact save_list_gen_eq. Qed.
+Print Assumptions generated_save_list_is_model.
+
+Theorem generated_save_nmeas_estimate_is_model : forall (R : Type) (dumps : jt R -> string) (k n : R) (p : string)
+  (fm : option (arr R)) (fs : pyfs),
+  saved fs p (dumps (nmeas_to_dict k n fm)) (save_nmeas_estimate_gen R dumps k n p fm fs).
+Proof. exact save_nmeas_estimate_gen_eq. Qed.
+Print Assumptions generated_save_nmeas_estimate_is_model.
+
+Theorem generated_load_nmeas_estimate_is_model : forall (R : Type) (r_truthy : R -> bool) (loads : string -> option (jt R))
+  (p : string) (fs : pyfs),
+  res_opt (load_nmeas_estimate_gen R r_truthy loads p fs) = load_via loads fs (SrcPath p) (nmeas_from_dict r_truthy).
+Proof. exact load_nmeas_estimate_gen_eq. Qed.
+Print Assumptions generated_load_nmeas_estimate_is_model.
+
+(* from the generated code alone: load_list(save_list(l, p)) = l for every codec that reads back what it wrote *)
+Theorem generated_list_file_roundtrip : forall (R : Type) (dumps : jt R -> string) (loads : string -> option (jt R)),
+  (forall j, loads (dumps j) = Some j) ->
+  forall (l : list (jt R)) (p : string) (fs : pyfs),
+  exists fs', save_list_gen R dumps l p fs = Val fs' /\
+              res_opt (load_list_gen R loads (SrcPath p) fs') = Some (TArr l).
+Proof. exact list_file_roundtrip. Qed.
+Print Assumptions generated_list_file_roundtrip.
+
+(* ---------------------------------------------------------------- measurements/expectation_values.py *)
+Theorem generated_expectation_values_to_dict_is_model : forall (R : Type) (e : expvals R),
+  ExpectationValues_to_dict_gen R e = Val (ev_to_dict e).
+Proof. exact ExpectationValues_to_dict_gen_eq. Qed.
+Print Assumptions generated_expectation_values_to_dict_is_model.
+
+Theorem generated_expectation_values_from_dict_is_model : forall (R : Type) (r_truthy : R -> bool) (j : jt R),
+  res_opt (ExpectationValues_from_dict_gen R r_truthy j) = ev_from_dict r_truthy j.
+Proof. exact ExpectationValues_from_dict_gen_eq. Qed.
+Print Assumptions generated_expectation_values_from_dict_is_model.
+
+(* ---------------------------------------------------------------- operators/_io.py *)
+Theorem generated_convert_op_to_dict_is_model : forall (R : Type) (of_nat : nat -> R) (s : list (sterm R)),
+  convert_op_to_dict_gen R of_nat s = Val (op_to_dict of_nat s).
+Proof. exact convert_op_to_dict_gen_eq. Qed.
+Print Assumptions generated_convert_op_to_dict_is_model.
+
+Theorem generated_convert_dict_to_op_is_model : forall (R : Type) (r_truthy : R -> bool) (to_nat : R -> option nat)
+  (K : cring) (is_zero : K -> bool) (inj : R -> K) (j : jt R),
+  res_opt (convert_dict_to_op_gen R r_truthy to_nat K is_zero inj j) = dict_to_op is_zero r_truthy inj to_nat j.
+Proof. exact convert_dict_to_op_gen_eq. Qed.
+Print Assumptions generated_convert_dict_to_op_is_model.
+
+Theorem generated_save_operator_is_model : forall (R : Type) (of_nat : nat -> R) (dumps : jt R -> string)
+  (s : list (sterm R)) (p : string) (fs : pyfs),
+  saved fs p (dumps (op_to_dict of_nat s)) (save_operator_gen R of_nat dumps s p fs).
+Proof. exact save_operator_gen_eq. Qed.
+Print Assumptions generated_save_operator_is_model.
+
+Theorem generated_load_operator_is_model : forall (R : Type) (r_truthy : R -> bool) (to_nat : R -> option nat)
+  (K : cring) (is_zero : K -> bool) (inj : R -> K) (loads : string -> option (jt R)) (file : loadsrc) (fs : pyfs),
+  res_opt (load_operator_gen R r_truthy to_nat K is_zero inj loads file fs)
+  = load_via loads fs file (dict_to_op is_zero r_truthy inj to_nat).
+Proof. exact load_operator_gen_eq. Qed.
+Print Assumptions generated_load_operator_is_model.
+
+Theorem generated_save_operator_set_is_model : forall (R : Type) (of_nat : nat -> R) (dumps : jt R -> string)
+  (l : list (list (sterm R))) (p : string) (fs : pyfs),
+  saved fs p (dumps (opset_to_dict of_nat l)) (save_operator_set_gen R of_nat dumps l p fs).
+Proof. exact save_operator_set_gen_eq. Qed.
+Print Assumptions generated_save_operator_set_is_model.
+
+Theorem generated_load_operator_set_is_model : forall (R : Type) (r_truthy : R -> bool) (to_nat : R -> option nat)
+  (K : cring) (is_zero : K -> bool) (inj : R -> K) (loads : string -> option (jt R)) (file : loadsrc) (fs : pyfs),
+  res_opt (load_operator_set_gen R r_truthy to_nat K is_zero inj loads file fs)
+  = load_via loads fs file (dict_to_opset is_zero r_truthy inj to_nat).
+Proof. exact load_operator_set_gen_eq. Qed.
+Print Assumptions generated_load_operator_set_is_model.
+
+(* ---------------------------------------------------------------- operators/_pauli_operators.py, the text side *)
+(* __repr__ reads the letter of an index through the dict _ops: on a dict (distinct keys) it is the model *)
+Theorem generated_term_repr_is_model : forall (C : Type) (show_c : C -> string) (t : tterm C),
+  NoDup (map fst (snd t)) -> PauliTerm_repr_gen C show_c t = Val (repr_term show_c t).
+Proof. exact PauliTerm_repr_gen_eq. Qed.
+Print Assumptions generated_term_repr_is_model.
+
+(* and on every list of pairs: the first entry of an index gives the letter *)
+Theorem generated_term_repr_on_all_inputs : forall (C : Type) (show_c : C -> string) (t : tterm C),
+  PauliTerm_repr_gen C show_c t
+  = Val ((show_c (fst t) ++ "*" ++ String.concat "*"
+           (match snd t with
+            | [] => ["I"]
+            | l => map (fun ql => (py_ops_get l (fst ql) "I" ++ NatKey.dec (N.of_nat (fst ql)))%string) l
+            end))%string).
+Proof. exact PauliTerm_repr_gen_spec. Qed.
+Print Assumptions generated_term_repr_on_all_inputs.
+
+Theorem generated_sum_repr_is_model : forall (C : Type) (show_c : C -> string) (c_zero : C) (s : list (tterm C)),
+  Forall (fun t => NoDup (map fst (snd t))) s ->
+  PauliSum_repr_gen C show_c c_zero s = Val (repr_sum show_c c_zero s).
+Proof. exact PauliSum_repr_gen_eq. Qed.
+Print Assumptions generated_sum_repr_is_model.
+
+(* _parse_operator: index and upper-cased letter of the model's parse_op *)
+Theorem generated_parse_operator_is_model : forall s : string,
+  res_opt (parse_operator_gen s) = option_map (fun qa => (fst qa, oletter_str (snd qa))) (parse_op s).
+Proof. exact parse_operator_gen_eq. Qed.
+Print Assumptions generated_parse_operator_is_model.
+
+(* PauliTerm(str) of the model = the translated _parse_operators_and_coefficient, then what __init__ does with its
+   result (init_from_parsed, hand-written: letters checked, identities dropped, default coefficient) *)
+Theorem generated_parse_term_is_model : forall (C : Type) (read_c : string -> option C) (c_one : C) (s : string),
+  parse_term read_c c_one s
+  = match res_opt (parse_operators_and_coefficient_gen C read_c s) with
+    | Some r => init_from_parsed c_one r
+    | None => None
+    end.
+Proof. exact parse_operators_and_coefficient_gen_eq. Qed.
+Print Assumptions generated_parse_term_is_model.
+
+(* the generated functions run: a dictionary through the translated loader and writer, a term through the translated
+   parser and printer *)
+Example generated_functions_run :
+  (let e := mk_ev (AReal (NNode [NLeaf (NFloat "0.5"); NLeaf (NFloat "-0.25")]))
+                  (Some [ACplx (NNode [NNode [NLeaf (NFloat "1.0", NFloat "2.0")]])]) (Some []) in
+   bind (ExpectationValues_to_dict_gen num e) (ExpectationValues_from_dict_gen num num_truthy)
+   = Val (mk_ev (AReal (NNode [NLeaf (NFloat "0.5"); NLeaf (NFloat "-0.25")]))
+                (Some [ACplx (NNode [NNode [NLeaf (NFloat "1.0", NFloat "2.0")]])]) None)) /\
+  convert_op_to_dict_gen Z Z.of_nat [(PCplx 2%Z 3%Z, [(12%nat, PZ); (0%nat, PX)])]
+  = Val (TObj [("terms", TArr [TObj [("pauli_ops", TArr [TObj [("qubit", TNum 12%Z); ("op", TStr "Z")];
+                                                          TObj [("qubit", TNum 0%Z); ("op", TStr "X")]]);
+                                     ("coefficient", TObj [("real", TNum 2%Z); ("imag", TNum 3%Z)])]])]) /\
+  parse_operators_and_coefficient_gen string txt_read "(1e-20+5j) * z123*X0 * I"
+  = Val (Some "(1e-20+5j)", [(123%nat, "Z"); (0%nat, "X")]) /\
+  parse_operators_and_coefficient_gen string txt_read "2*X1*Y1" = Raise ValueError /\
+  PauliSum_repr_gen string (fun c => c) "0" [("(1e-20+5j)", [(123%nat, PZ); (0%nat, PX)]); ("1e-05", [])]
+  = Val "(1e-20+5j)*Z123*X0 + 1e-05*I".
+Proof. vm_compute. repeat split; reflexivity. Qed.
